@@ -282,6 +282,30 @@ def shard(job) -> dict:
     return acc.out()
 
 
+def optimised_process() -> list[dict]:
+    """The fault space for sequences of length <= 2 once more in an interpreter started with
+    PYTHONOPTIMIZE=1 (python -O): refusing further use of a stream must not hinge on `assert`
+    statements, which that mode removes."""
+    import json  # noqa: PLC0415
+    import os  # noqa: PLC0415
+    import subprocess  # noqa: PLC0415
+    import sys  # noqa: PLC0415
+
+    from mc import env  # noqa: PLC0415
+
+    envp = dict(os.environ)
+    envp["PYTHONOPTIMIZE"] = "1"
+    envp["VERIF_C20_OPT"] = "1"
+    r = subprocess.run([sys.executable, "-B", "-W", "ignore", "-m", "mc.checks.c20"],
+                       capture_output=True, text=True, env=envp, cwd=env.VERIF, check=False)
+    if r.returncode != 0:
+        raise env.HarnessError(f"optimised subprocess failed: {r.stderr[-800:]}")
+    out = json.loads(r.stdout.strip().splitlines()[-1])
+    if out["optimize"] < 1:
+        raise env.HarnessError("the subprocess did not run in optimised mode")
+    return out
+
+
 def run(ctx) -> None:
     L = 3 if ctx.quick else 4
     ncombo = len(list(all_cases(L)))
@@ -290,6 +314,12 @@ def run(ctx) -> None:
         jobs += [(L, lo, hi, fs) for lo, hi in pool.split_range(ncombo, 32)]
     merged = pool.merge(pool.pmap(shard, jobs))
     ctx.add(merged)
+    opt = optimised_process()
+    for v in opt["violations"]:
+        ctx.violation({**v["sig"], "mode": "python -O"},
+                      f"under python -O (PYTHONOPTIMIZE=1): {v['what']}",
+                      {**v["case"], "optimised": True})
+    ctx.coverage["cases_under_python_O"] = opt["evals"]
     harness = [v for v in merged["violations"] if v["sig"].get("fail") == "harness"]
     if harness:
         from mc.env import HarnessError  # noqa: PLC0415
@@ -315,5 +345,25 @@ def run(ctx) -> None:
 
 
 def replay(case: dict) -> list:
+    if case.get("optimised"):
+        key = {k: v for k, v in case.items() if k != "optimised"}
+        return [v["what"] for v in optimised_process()["violations"] if v["case"] == key]
     r = run_case(case)
     return [r[1]] if r and r[0] != "skip" else []
+
+
+if __name__ == "__main__":
+    import json as _json
+    import os as _os
+    import sys as _sys
+
+    if _os.environ.get("VERIF_C20_OPT"):
+        from mc import env as _env
+
+        _env.pin()
+        _env.assert_repo_pyjelly()
+        DR.ensure_rdflib_plugin()
+        _n = len(list(all_cases(2)))
+        _res = shard((2, 0, _n, 250))
+        print(_json.dumps({"optimize": _sys.flags.optimize, "evals": _res["evals"],
+                           "violations": _res["violations"][:50]}))
